@@ -262,6 +262,9 @@ func (server *GripServer) BulkAdd(stream gripql.Edit_BulkAddServer) error {
 			if elementStream != nil {
 				close(elementStream)
 				elementStream = nil
+				// let the loader store what it was sent before the next one starts:
+				// a later element of the stream may replace one of these
+				wg.Wait()
 			}
 			graphName = element.Graph
 			gdb, err := server.getGraphDB(element.Graph)
